@@ -114,6 +114,30 @@ func vxOps(opts []Option, n int) {
 }
 
 
+// vxAudit: at the end of a sequence the whole store is compared with the model - every
+// key of the harness is read back, and the listing is the set of live keys.
+func vxAudit(c *fsCache, keys []string, model map[string][]byte) {
+	for _, k := range keys {
+		got, err := c.Get(k)
+		if want, ok := model[k]; ok {
+			vxAssert(err == nil, "C14/get-of-present-key-failed")
+			vxAssert(err != nil || vxBytesEq(got, want), "C14/get-returned-other-bytes")
+		} else {
+			vxAssert(err != nil && errors.Is(err, driver.ErrNotExist), "C14/absent-key-not-reported-as-not-exist")
+		}
+	}
+	ks, err := c.Keys("")
+	vxAssert(err == nil, "C14/keys-failed")
+	same := len(ks) == len(model)
+	if same {
+		for _, g := range ks {
+			_, ok := model[g]
+			same = same && ok
+		}
+	}
+	vxAssert(same, "C14/keys-listing-differs-from-live-keys")
+}
+
 // VxC14_OpsLong: the same for keys long enough to be stored in a chain of fragment
 // directories: two keys with a common part of 300 bytes and short symbolic tails (equal,
 // one a prefix of the other, or siblings in the last directory), plus a short key.
@@ -162,5 +186,6 @@ func VxC14_OpsLong() {
 			vxAssert(same, "C14/keys-listing-differs-from-live-keys")
 		}
 	}
+	vxAudit(c, keys[:], model)
 	vxCover("C14/ops-long")
 }
